@@ -339,6 +339,24 @@ def _replay_sanity(ctx, doc, path):
     return 0
 
 
+E2E_COUNTS['quick']['analyze'] = 150
+E2E_COUNTS['thorough']['analyze'] = 3000
+E2E_RULES['analyze'] = ('generated histories (plain and bare) extended by plumbing with a fixture branch holding blobs of distinct and tied sizes under awkward names (blank, quote, tab, UTF-8, Latin-1), a second version of a path, the same blob at a second path (40 %), an octopus merge of up to six parents, refs in notes/ and remotes/, a tag pointing at a blob (12 %), and an unreachable blob+tree+commit; half are repacked. The real CLI with --analyze --analyze-json, --analyze-top from {0,1,2,3,5,10,50} and (60 %) a threshold configuration. Non-trivial: the tool exits 0 and every number is compared.')
+E2E_COUNTS['quick']['detect'] = 120
+E2E_COUNTS['thorough']['detect'] = 2500
+E2E_RULES['detect'] = ('generated histories extended by plumbing with 2-6 tokens drawn from the 22 built-in families and two custom patterns (with and without a capture group), embedded in filler text with varied delimiters and quotes, placed in a file deleted by the next commit, in a commit reachable only from an annotated tag, and on a side branch as text / binary / >2 MiB / mostly-non-ASCII blob; decoy placeholders; a token in an unreachable blob; every 17th case 530 distinct values; database passwords that start with #, contain ==> or look like regex:/glob: rules. Then --detect-secrets with the custom patterns, then --replace-text with the generated file, then a rescan of all reachable blobs. Non-trivial: the scan exits 0.')
+
+
+@runner
+def e2e_analyze(ctx):
+    _e2e(ctx, ['analyze'], fn_name='analyze_case', gen_mode='filter', label='analyze')
+
+
+@runner
+def e2e_detect(ctx):
+    _e2e(ctx, ['detect'], fn_name='detect_case', gen_mode='filter', label='detect')
+
+
 @runner
 def e2e_dryrun(ctx):
     _e2e(ctx, ['dryrun'], fn_name='dryrun_case', gen_mode='filter', label='dryrun')
